@@ -85,6 +85,7 @@ Led0  == [rootS |-> Zero1, rootW |-> Zero1,
           rawW  |-> Zero1,             \* Weak handles converted to raw pointers (Weak::into_raw)
           made  |-> False1,            \* object was created
           gone  |-> False1,            \* value was moved out to the caller (try_unwrap/make_mut)
+          tore  |-> FALSE,             \* a top-level DropRoot has happened (phase switch of the "graph" family)
           fresh |-> 0,                 \* allocation the call in progress creates (make_mut), else 0
           unw   |-> {},                \* objects whose value is detached in the caller's hands
           mvd   |-> Zero1,             \* how often the value was moved out / cloned by a consuming call
@@ -252,7 +253,7 @@ Cause(op) == IF op \in {"Take", "DropStored", "TakeUnadopt"} THEN "elide"
              ELSE IF op \in {"Adopt", "AdoptSame", "AdoptStore"} THEN "over" ELSE "none"
 
 LedCall(g, op, a, b) ==
-  CASE op = "DropRoot"   -> [g EXCEPT !.rootS[a] = @ - 1]
+  CASE op = "DropRoot"   -> [g EXCEPT !.rootS[a] = @ - 1, !.tore = TRUE]
     [] op = "DropStored" -> [g EXCEPT !.valS[a][b] = @ - 1]
     [] op = "Store"      -> [g EXCEPT !.rootS[b] = @ - 1]
     [] op = "Take"       -> [g EXCEPT !.valS[a][b] = @ - 1]
@@ -461,6 +462,16 @@ OpAdoptStore(a, o, top, base) ==
   /\ led.rootS[o] > 0 /\ led.valS[a][o] < Caps.stored /\ led.rec[a][o] < Caps.rec
   /\ CanName(a, o)
   /\ Done(AdoptHeap(heap, a, o), "AdoptStore", a, o, NoScript, "ok", top, base)
+
+\* "graph" family: one recorded edge a -> o in one step (clone a root handle of o, adopt it,
+\* store it in a), only while nothing has been dropped yet.  Scripts expand it into
+\* CloneRoot(o) ; AdoptStore(a, o), so traces contain ordinary calls only.
+OpEdge(a, o, top, base) ==
+  /\ ~led.tore /\ led.rootS[o] > 0 /\ led.rootS[a] > 0 /\ led.valS[a][o] < Caps.stored /\ led.rec[a][o] < Caps.rec
+  /\ Intact(a) /\ Intact(o)
+  /\ Commit(AdoptHeap([heap EXCEPT !.strong[o] = @ + 1], a, o),
+            [led EXCEPT !.rec[a][o] = @ + 1, !.adopted = TRUE, !.valS[a][o] = @ + 1],
+            [ObFor(top, "Edge", a, o) EXCEPT !.ret = "ok"], [ctl EXCEPT !.stack = base])
 
 \* the documented idiom: take out, then unadopt (the taken handle is `other`)
 OpTakeUnadopt(a, o, top, base) ==
@@ -937,6 +948,7 @@ Call ==
      \/ En("AdoptSame")   /\ \E a \in Obj : OpAdoptSame(a, TRUE, <<>>)
      \/ En("UnadoptSame") /\ \E a \in Obj : OpUnadoptSame(a, TRUE, <<>>)
      \/ En("AdoptStore")  /\ \E a, o \in Obj : OpAdoptStore(a, o, TRUE, <<>>)
+     \/ En("Edge")        /\ \E a, o \in Obj : OpEdge(a, o, TRUE, <<>>)
      \/ En("TakeUnadopt") /\ \E a, o \in Obj : OpTakeUnadopt(a, o, TRUE, <<>>)
      \/ En("Downgrade")   /\ \E o \in Obj : OpDowngrade(o, TRUE, <<>>)
      \/ En("Upgrade")     /\ \E o \in Obj : OpUpgrade(o, TRUE, <<>>)
